@@ -16,6 +16,9 @@ import (
 type c14TxnStore struct {
 	*pStore
 	mu *sync.Mutex // held from Transaction() until Commit/Abort, like the in-memory store's
+	// whole: an atomic store - a commit one of whose operations the store rejects fails as a whole
+	// (Commit returns the error and no results) and applies nothing
+	whole bool
 }
 
 type c14Op struct {
@@ -27,6 +30,7 @@ type c14Op struct {
 
 type c14Txn struct {
 	s       *pStore
+	whole   bool
 	mu      *sync.Mutex
 	ops     []c14Op
 	aborted bool
@@ -35,7 +39,7 @@ type c14Txn struct {
 
 func (s c14TxnStore) Transaction(options keyvalue.TransactionOptions) (keyvalue.Transaction, error) {
 	s.mu.Lock()
-	return &c14Txn{s: s.pStore, mu: s.mu}, nil
+	return &c14Txn{s: s.pStore, mu: s.mu, whole: s.whole}, nil
 }
 
 func (t *c14Txn) end() {
@@ -62,6 +66,11 @@ func (t *c14Txn) Commit(ctx context.Context) ([]keyvalue.OpResult, error) {
 	defer t.end()
 	if t.aborted {
 		return nil, context.Canceled
+	}
+	if t.whole && !t.s.faultLazy && t.s.faultAt >= t.s.calls && t.s.faultAt < t.s.calls+len(t.ops) {
+		t.s.calls += len(t.ops)
+		t.s.fired = true
+		return nil, pErrInjected
 	}
 	results := make([]keyvalue.OpResult, len(t.ops))
 	for i, op := range t.ops {
@@ -92,9 +101,12 @@ func VerifC14Faults() {
 	}
 	var fs hackpadfs.FS
 	var err error
-	if verifChoice("store-kind", 2) == 1 {
+	if kind := verifChoice("store-kind", 3); kind == 2 {
+		verifTag("store", "atomic-transaction-store")
+		fs, err = keyvalue.NewFS(c14TxnStore{store, new(sync.Mutex), true})
+	} else if kind == 1 {
 		verifTag("store", "transaction-store")
-		fs, err = keyvalue.NewFS(c14TxnStore{store, new(sync.Mutex)})
+		fs, err = keyvalue.NewFS(c14TxnStore{store, new(sync.Mutex), false})
 	} else {
 		verifTag("store", "plain-store")
 		fs, err = keyvalue.NewFS(store)
@@ -176,9 +188,12 @@ func VerifC14Handle() {
 	}
 	var fs hackpadfs.FS
 	var err error
-	if verifChoice("store-kind", 2) == 1 {
+	if kind := verifChoice("store-kind", 3); kind == 2 {
+		verifTag("store", "atomic-transaction-store")
+		fs, err = keyvalue.NewFS(c14TxnStore{store, new(sync.Mutex), true})
+	} else if kind == 1 {
 		verifTag("store", "transaction-store")
-		fs, err = keyvalue.NewFS(c14TxnStore{store, new(sync.Mutex)})
+		fs, err = keyvalue.NewFS(c14TxnStore{store, new(sync.Mutex), false})
 	} else {
 		verifTag("store", "plain-store")
 		fs, err = keyvalue.NewFS(store)
